@@ -121,6 +121,8 @@ class Fresh:
             return self.classify_call(e, state, ff, depth)
         if isinstance(e, ast.Attribute):
             bc, bw = self.classify(e.value, state, ff, depth + 1)
+            if bc == SHELL and e.attr == '__dict__':
+                return LOCAL, 'the attribute dictionary of a shallow copy is its own (copy() copies it)'
             if bc == SHELL:
                 return ARG, f"field .{e.attr} of a shallow copy still aliases the original"
             if bc == OWNED:
